@@ -605,6 +605,21 @@ def corr_case(ck, case, viol):
     if got != real:
         ck.broken_tie('model Stil.extract vs StilFile.__init__', f'patterns differ: model {got[:2]} real {real[:2]}', inp=case)
         return
+    # (1b) hypotheses of C18.extract_blocks / extract_pattern: the generated call list is `callsOf` of its blocks (discarded
+    # load_unload calls, optional launch call, capture call with parameters) and every block is `ok` — evaluated by the driver
+    tr = case.get('truth')
+    if tr and 'pats' in tr and all('discarded_load' in pt for pt in tr['pats']):
+        spec = [f"{1 if pt['discarded_load'] else 0}:{0 if pt['launch'] is None else 1}" for pt in tr['pats']]
+        try:
+            ans = common.run_driver([request('blocks', 'sf', c, s, nxt=spec)])[0]
+        except common.DriverError:
+            raise
+        except Exception as ex:
+            ans = f'{type(ex).__name__}'
+        ck.hist['hyp:extract-blocks:' + ' '.join(ans.split(' ')[:3])] += 1
+        if not case.get('malformed') and not ans.startswith('shape=true ok=true eq=true'):
+            ck.broken_tie('hypotheses of C18.extract_blocks on a generated call list (shape callsOf / Blk.ok / extract = expectPats)',
+                          ans, inp=case)
     # (2) the three functions, property mode
     m = model_all(c, s, res, 'sf', sim=True)
     bad = [fn for fn in ('tests', 'responses', 'loc') + (('locinit',) if 'locinit' in res else ()) if not same(res[fn], m[fn])]
